@@ -286,6 +286,12 @@ def run(chk):
                         if x.get("k") == "DeclRefExpr" and "did" in x:
                             srcs.add(x["did"])
 
+        for c in props:      # ... or handed to proposeUpdatedTensors(std::move(local)), which stores it
+            for a in call_args(c):
+                for x in [a] + list(walk(a)):
+                    if x.get("k") == "DeclRefExpr" and "did" in x:
+                        srcs.add(x["did"])
+
         def is_merge(x):
             if x.get("k") != "CXXOperatorCallExpr" or x.get("op") != "+=":
                 return False
